@@ -61,6 +61,7 @@ type rw struct {
 type accPlan struct {
 	name  string
 	write bool
+	site  ast.Expr // computed on the original AST (positions of rewritten children are lost)
 }
 
 const vrtName = "__vrt"
@@ -687,7 +688,7 @@ func (r *rw) raceWrap(e ast.Expr) ast.Expr {
 				fn = "Wr"
 			}
 			r.counts["race:field"]++
-			out = &ast.ParenExpr{X: &ast.StarExpr{X: call(r.vrt(fn), &ast.UnaryExpr{Op: token.AND, X: x}, strlit(p.name), r.site(x))}}
+			out = &ast.ParenExpr{X: &ast.StarExpr{X: call(r.vrt(fn), &ast.UnaryExpr{Op: token.AND, X: x}, strlit(p.name), p.site)}}
 		}
 	case *ast.Ident:
 		if p := r.idPlan[x]; p != nil {
@@ -697,7 +698,7 @@ func (r *rw) raceWrap(e ast.Expr) ast.Expr {
 				fn = "Wr"
 			}
 			r.counts["race:var"]++
-			out = &ast.ParenExpr{X: &ast.StarExpr{X: call(r.vrt(fn), &ast.UnaryExpr{Op: token.AND, X: x}, strlit(p.name), r.site(x))}}
+			out = &ast.ParenExpr{X: &ast.StarExpr{X: call(r.vrt(fn), &ast.UnaryExpr{Op: token.AND, X: x}, strlit(p.name), p.site)}}
 		}
 	}
 	if p := r.mapPlan[e]; p != nil {
@@ -711,7 +712,7 @@ func (r *rw) raceWrap(e ast.Expr) ast.Expr {
 		if out != nil {
 			in = out
 		}
-		out = call(r.vrt(fn), in, strlit(p.name), r.site(e))
+		out = call(r.vrt(fn), in, strlit(p.name), p.site)
 	}
 	return out
 }
@@ -900,7 +901,7 @@ func (r *rw) planRace(f *ast.File) {
 				recv = p.Elem()
 			}
 			name := types.TypeString(recv, func(*types.Package) string { return "" }) + "." + x.Sel.Name
-			r.selPlan[x] = &accPlan{name: name, write: writes[x]}
+			r.selPlan[x] = &accPlan{name: name, write: writes[x], site: r.site(x.Sel)}
 		case *ast.Ident:
 			o, ok := r.info.Uses[x].(*types.Var)
 			if !ok || o.IsField() || noInstr[x] || !captured[o] || !mutated[o] {
@@ -909,16 +910,16 @@ func (r *rw) planRace(f *ast.File) {
 			if isSyncType(o.Type()) {
 				return true
 			}
-			r.idPlan[x] = &accPlan{name: "var " + o.Name(), write: writes[x]}
+			r.idPlan[x] = &accPlan{name: "var " + o.Name(), write: writes[x], site: r.site(x)}
 		case *ast.IndexExpr:
 			if r.isMap(x.X) {
 				e := unparen(x.X)
-				r.mapPlan[e] = &accPlan{name: "map " + exprString(e), write: writes[e]}
+				r.mapPlan[e] = &accPlan{name: "map " + exprString(e), write: writes[e], site: r.site(x)}
 			}
 		case *ast.CallExpr:
 			if len(x.Args) >= 1 && (r.isBuiltin(x.Fun, "len") || r.isBuiltin(x.Fun, "delete")) && r.isMap(x.Args[0]) {
 				e := unparen(x.Args[0])
-				r.mapPlan[e] = &accPlan{name: "map " + exprString(e), write: writes[e]}
+				r.mapPlan[e] = &accPlan{name: "map " + exprString(e), write: writes[e], site: r.site(x)}
 			}
 		}
 		return true
